@@ -37,6 +37,9 @@
  *          S-b whenever a packet ends, an event is sent, and at the end of the
  *             stream every such member is its default or the decoding of a
  *             packet the reference has completed,
+ *          (VBI_EVENT_NETWORK_ID counts as VBI_EVENT_NETWORK throughout: since repo commit
+ *           a34c617 a confirmed name that does not change the station id - same call
+ *           letters - is announced by VBI_EVENT_NETWORK_ID alone; both carry vbi_network)
  *          S-c VBI_EVENT_PROG_INFO / VBI_EVENT_NETWORK are sent only while a
  *             packet completes whose content was completed before (upper bound
  *             of "announced on the second occurrence"),
@@ -641,7 +644,7 @@ static void svc_handler(vbi_event *e, void *ud)
                 if (e->type == VBI_EVENT_PROG_INFO) {
                         l->e[l->n].future = e->ev.prog_info->future;
                         for (int g = 0; g < G_NAME; g++) pi_group(e->ev.prog_info, g, &l->e[l->n].payload[g]);
-                } else if (e->type == VBI_EVENT_NETWORK) {
+                } else if (e->type == VBI_EVENT_NETWORK || e->type == VBI_EVENT_NETWORK_ID) {
                         net_group(&e->ev.network, G_NAME, &l->e[l->n].payload[G_NAME]);
                         net_group(&e->ev.network, G_CALL, &l->e[l->n].payload[G_CALL]);
                 }
@@ -676,7 +679,7 @@ static vbi_decoder *svc_new(void)
 {
         vbi_decoder *vbi = vbi_decoder_new();
         if (!vbi) die("vbi_decoder_new");
-        if (!vbi_event_handler_register(vbi, VBI_EVENT_PROG_INFO | VBI_EVENT_NETWORK, svc_handler, &g_ev)) die("register");
+        if (!vbi_event_handler_register(vbi, VBI_EVENT_PROG_INFO | VBI_EVENT_NETWORK | VBI_EVENT_NETWORK_ID, svc_handler, &g_ev)) die("register");
         return vbi;
 }
 
@@ -876,15 +879,16 @@ static int run_svc_on(const stream_t *s, const char *fault, const svcopt_t *opt,
                 if (!ok) break;
                 /* S-c */
                 for (int k = 0; k < g_ev.n && k < 8 && ok; k++) {
-                        int ec = g_ev.e[k].type == VBI_EVENT_NETWORK ? 2 : g_ev.e[k].future ? 1 : 0;
+                        int isnet = g_ev.e[k].type == VBI_EVENT_NETWORK || g_ev.e[k].type == VBI_EVENT_NETWORK_ID;
+                        int ec = isnet ? 2 : g_ev.e[k].future ? 1 : 0;
                         int legit = ms.delivered && dc == ec && seen && (ec != 2 || dg == G_NAME);
-                        if (g_ev.e[k].type != VBI_EVENT_PROG_INFO && g_ev.e[k].type != VBI_EVENT_NETWORK) continue;
+                        if (g_ev.e[k].type != VBI_EVENT_PROG_INFO && !isnet) continue;
                         nevents[ec]++;
                         for (int j = 0; j < ntr; j++)
                                 if (tr[j].c == ec && i > tr[j].first_step && !memcmp(&g_ev.e[k].payload[tr[j].g], &tr[j].want, sizeof(gval_t))) tr[j].announced = 1;
                         if (!legit) {
                                 anomaly(&rc, ms.delivered ? "information is announced before the packet has been repeated" : "information is announced although no packet was completed", wflags,
-                                        "%s for class %d", g_ev.e[k].type == VBI_EVENT_NETWORK ? "VBI_EVENT_NETWORK" : "VBI_EVENT_PROG_INFO", ec);
+                                        "%s for class %d", isnet ? "VBI_EVENT_NETWORK(_ID)" : "VBI_EVENT_PROG_INFO", ec);
                                 ok = 0;
                         }
                 }
